@@ -1,5 +1,395 @@
-//! C08 — not built yet.
-#![allow(unused)]
+//! C08 — descriptive statistics equal their textbook definitions: case generation for the Coq
+//! correspondence (free functions, Vector and Matrix methods, four covariance algorithms, extrema
+//! and their indices, histogram bin centres) and the failure-search oracle (exact i128 rational
+//! arithmetic on dyadic data, naive reference loops for extrema, midpoints for bin centres).
 use crate::util::*;
-pub fn gen(_tier: &str, _seed: u64, _outdir: &str) { eprintln!("C08: gen not implemented"); std::process::exit(3); }
-pub fn oracle(_tier: &str, _seed: u64) -> (u64, Vec<Finding>) { eprintln!("C08: oracle not implemented"); std::process::exit(3); }
+use compute::linalg::{Matrix, Vector};
+use compute::statistics::*;
+
+const SFN: [&str; 10] = ["Mean", "WMean", "Var", "SVar", "Std", "SStd", "Min", "Max", "ArgMin", "ArgMax"];
+const COVK: [&str; 4] = ["CovPop", "CovSample", "CovOnepass", "CovOnline"];
+
+// ---------------------------------------------------------------------------------------------
+// data classes of the property
+const SCALE: f64 = 1024.0; // dyadic data: every value is k/1024 with k an integer (exact in i128)
+
+fn dyadic(x: f64) -> f64 { (x * SCALE).round() / SCALE }
+
+/// class 0 small integers, 1 gaussian (dyadic), 2 heavily offset gaussian, 3 constant, 4 sorted, 5 reversed,
+/// 6 ties and signed zeros; all values are exact multiples of 1/1024 below 2^38 in magnitude
+fn data_class(r: &mut Rng, class: u64, n: usize) -> Vec<f64> {
+    match class {
+        0 => (0..n).map(|_| r.small_int(9)).collect(),
+        1 => (0..n).map(|_| dyadic(3.0 * r.normal())).collect(),
+        2 => {
+            let off = *r.pick(&[1.0e3, 1.0e5, 1.0e6, 1.0e7, 1.0e8, -1.0e8, 123456789.0]);
+            (0..n).map(|_| off + dyadic(r.normal())).collect()
+        }
+        3 => { let c = if r.coin(0.5) { r.small_int(50) } else { dyadic(100.0 * r.normal()) }; vec![c; n] }
+        4 | 5 => {
+            let mut v: Vec<f64> = (0..n).map(|_| dyadic(5.0 * r.normal())).collect();
+            v.sort_by(|a, b| a.partial_cmp(b).unwrap());
+            if class == 5 { v.reverse(); }
+            v
+        }
+        _ => (0..n).map(|_| *r.pick(&[0.0, -0.0, 1.0, -1.0, 2.0, -2.0, 0.5, 0.0, -0.0])).collect(),
+    }
+}
+const CLASS_NAMES: [&str; 7] = ["small-int", "gaussian", "offset", "constant", "sorted", "reversed", "ties-zeros"];
+
+fn reals(r: &mut Rng, n: usize) -> Vec<f64> { (0..n).map(|_| r.uniform(-4.0, 4.0) * if r.coin(0.1) { 1.0e3 } else { 1.0 }).collect() }
+
+fn specials(r: &mut Rng, n: usize) -> Vec<f64> {
+    const SP: [f64; 14] = [0.0, -0.0, f64::INFINITY, f64::NEG_INFINITY, f64::NAN, f64::MAX, f64::MIN, f64::MIN_POSITIVE,
+                           4.9e-324, -4.9e-324, 1.0, -1.0, 1.0e308, -1.0e308];
+    (0..n).map(|_| if r.coin(0.6) { *r.pick(&SP) } else { r.uniform(-2.0, 2.0) }).collect()
+}
+
+fn nontrivial(d: &[f64]) -> bool { d.len() >= 3 && d.iter().any(|x| x.to_bits() != d[0].to_bits()) }
+
+// ---------------------------------------------------------------------------------------------
+// the implementation, by function index and calling form (0 free function, 1 Vector method, 2 Matrix method)
+fn run_stat(f: usize, form: usize, rows: usize, d: &[f64]) -> Result<Vec<f64>, String> {
+    catch(|| match form {
+        0 => match f {
+            0 => vec![mean(d)], 1 => vec![welford_mean(d)], 2 => vec![var(d)], 3 => vec![sample_var(d)],
+            4 => vec![std(d)], 5 => vec![sample_std(d)], 6 => vec![min(d)], 7 => vec![max(d)],
+            8 => vec![argmin(d) as f64], _ => vec![argmax(d) as f64],
+        },
+        1 => { let v = Vector::new(d.to_vec()); match f {
+            0 => vec![v.mean()], 1 => vec![welford_mean(&v)], 2 => vec![v.var()], 3 => vec![v.sample_var()],
+            4 => vec![v.std()], 5 => vec![v.sample_std()], 6 => vec![v.min()], 7 => vec![v.max()],
+            8 => vec![v.argmin() as f64], _ => vec![v.argmax() as f64],
+        } }
+        _ => { let m = Matrix::new(d.to_vec(), rows as i32, (d.len() / rows) as i32); match f {
+            0 => vec![m.mean()], 1 => vec![welford_mean(&m.data)], 2 => vec![m.var()], 3 => vec![m.sample_var()],
+            4 => vec![m.std()], 5 => vec![m.sample_std()], 6 => vec![m.min()], 7 => vec![m.max()],
+            8 => { let (i, j) = m.argmin(); vec![i as f64, j as f64] }
+            _ => { let (i, j) = m.argmax(); vec![i as f64, j as f64] }
+        } }
+    })
+}
+fn run_cov(k: usize, x: &[f64], y: &[f64]) -> Result<Vec<f64>, String> {
+    catch(|| vec![match k { 0 => covariance(x, y), 1 => sample_covariance(x, y), 2 => sample_covariance_onepass(x, y), _ => sample_covariance_online(x, y) }])
+}
+fn run_hist(e: &[f64]) -> Result<Vec<f64>, String> { catch(|| hist_bin_centers(e).v) }
+
+fn push_stats(cs: &mut Cases, r: &mut Rng, d: &[f64], tag: &str) {
+    let nt = nontrivial(d);
+    for f in 0..10 {
+        let res = run_stat(f, 0, 1, d);
+        cs.push(app("CStat", vec![Tm::Raw(SFN[f].into()), Tm::Nat(0), Tm::Nat(1), fl(d), outcome_list(&res)]), &format!("{}/{}", SFN[f], tag), nt);
+    }
+    // one Vector-method and one Matrix-method call per data set (all ten over the stream)
+    let f = r.below(10) as usize;
+    let res = run_stat(f, 1, 1, d);
+    cs.push(app("CStat", vec![Tm::Raw(SFN[f].into()), Tm::Nat(1), Tm::Nat(1), fl(d), outcome_list(&res)]), &format!("Vector::{}", SFN[f]), nt);
+    if !d.is_empty() {
+        let divs: Vec<usize> = (1..=d.len().min(12)).filter(|k| d.len() % k == 0).collect();
+        let rows = *r.pick(&divs);
+        let f = r.below(10) as usize;
+        let res = run_stat(f, 2, rows, d);
+        cs.push(app("CStat", vec![Tm::Raw(SFN[f].into()), Tm::Nat(2), Tm::Nat(rows as u64), fl(d), outcome_list(&res)]), &format!("Matrix::{}", SFN[f]), nt);
+    }
+}
+fn push_cov(cs: &mut Cases, x: &[f64], y: &[f64], tag: &str) {
+    let nt = x.len() == y.len() && nontrivial(x) && nontrivial(y);
+    for k in 0..4 {
+        let res = run_cov(k, x, y);
+        let t = if res.is_err() { format!("{}/panic", COVK[k]) } else { format!("{}/{}", COVK[k], tag) };
+        cs.push(app("CCov", vec![Tm::Raw(COVK[k].into()), fl(x), fl(y), outcome_list(&res)]), &t, nt || res.is_err());
+    }
+}
+fn push_hist(cs: &mut Cases, e: &[f64], tag: &str) {
+    let res = run_hist(e);
+    let t = if res.is_err() { "hist/panic".to_string() } else { format!("hist/{}", tag) };
+    cs.push(app("CHist", vec![fl(e), outcome_list(&res)]), &t, e.len() >= 3 || res.is_err());
+}
+
+fn edges(r: &mut Rng, n: usize, uniform: bool) -> Vec<f64> {
+    if uniform {
+        let lo = r.small_int(50); let h = *r.pick(&[0.25, 0.5, 1.0, 3.0, 0.1]);
+        (0..n).map(|i| lo + h * i as f64).collect()
+    } else {
+        let mut e = r.small_int(50); let mut v = vec![];
+        for _ in 0..n { v.push(e); e += dyadic(r.uniform(0.01, 8.0)); }
+        v
+    }
+}
+
+pub fn gen(tier: &str, seed: u64, outdir: &str) {
+    let mut r = Rng::new(seed);
+    let mut cs = Cases::new("C08");
+    let thorough = tier == "thorough";
+    // 1. every length 0..=L (all residues mod 8 of the unrolled sum), every data class
+    let maxl = if thorough { 72 } else { 26 };
+    for n in 0..=maxl {
+        for class in 0..7u64 {
+            if !thorough && n > 10 && (n as u64 + class) % 3 != 0 { continue; }
+            let d = data_class(&mut r, class, n);
+            push_stats(&mut cs, &mut r, &d, CLASS_NAMES[class as usize]);
+            let cy = if r.coin(0.5) { class } else { r.below(7) };
+            let y = data_class(&mut r, cy, n);
+            push_cov(&mut cs, &d, &y, CLASS_NAMES[class as usize]);
+        }
+        let d = reals(&mut r, n);
+        push_stats(&mut cs, &mut r, &d, "real");
+        let y = reals(&mut r, n);
+        push_cov(&mut cs, &d, &y, "real");
+        let d = specials(&mut r, n);
+        push_stats(&mut cs, &mut r, &d, "special");
+        let y = specials(&mut r, n);
+        push_cov(&mut cs, &d, &y, "special");
+        push_hist(&mut cs, &edges(&mut r, n, true), "uniform");
+        push_hist(&mut cs, &edges(&mut r, n, false), "nonuniform");
+        push_hist(&mut cs, &reals(&mut r, n), "unsorted-real");
+        push_hist(&mut cs, &specials(&mut r, n), "special");
+    }
+    // 2. longer vectors (each case repeats its data: a few functions per data set, all of them over the stream)
+    let lens: Vec<usize> = if thorough { vec![100, 257, 1000, 1023, 4096, 10000, 9999, 5003, 777, 2500] } else { vec![100, 257, 1000] };
+    let mut fi = 0usize;
+    for (i, &n) in lens.iter().enumerate() {
+        for rep in 0..2 {
+            let class = ((i + rep) % 7) as u64;
+            let d = if rep == 1 && i % 2 == 0 { reals(&mut r, n) } else { data_class(&mut r, class, n) };
+            let tag = if rep == 1 && i % 2 == 0 { "real-long".to_string() } else { format!("{}-long", CLASS_NAMES[class as usize]) };
+            let nf = if n <= 1023 { 10 } else { 2 };
+            for _ in 0..nf {
+                let f = fi % 10; let form = (fi / 10) % 3; fi += 1;
+                let rows = if form == 2 { *r.pick(&(1..=16usize).filter(|k| n % k == 0).collect::<Vec<_>>()) } else { 1 };
+                let res = run_stat(f, form, rows, &d);
+                cs.push(app("CStat", vec![Tm::Raw(SFN[f].into()), Tm::Nat(form as u64), Tm::Nat(rows as u64), fl(&d), outcome_list(&res)]), &format!("{}/{}", SFN[f], tag), true);
+            }
+            let y = data_class(&mut r, 2, n);
+            let ks: Vec<usize> = if n <= 1023 { vec![0, 1, 2, 3] } else { vec![(i + rep) % 4] };
+            for k in ks {
+                let res = run_cov(k, &d, &y);
+                cs.push(app("CCov", vec![Tm::Raw(COVK[k].into()), fl(&d), fl(&y), outcome_list(&res)]), &format!("{}/{}", COVK[k], tag), true);
+            }
+            push_hist(&mut cs, &edges(&mut r, n.min(2000), rep == 0), "long");
+        }
+    }
+    // 3. extrema: ties at the extremum, extremum first/last, signed zeros, +-inf, NaN at every position
+    let next = if thorough { 1500 } else { 250 };
+    for it in 0..next {
+        let n = 1 + r.below(12) as usize;
+        let mut d: Vec<f64> = (0..n).map(|_| r.small_int(3)).collect();
+        match it % 6 {
+            0 => { let i = r.below(n as u64) as usize; d[i] = f64::NAN; }
+            1 => { for x in d.iter_mut() { if *x == 0.0 && r.coin(0.5) { *x = -0.0; } } }
+            2 => { let i = r.below(n as u64) as usize; d[i] = if r.coin(0.5) { f64::INFINITY } else { f64::NEG_INFINITY }; }
+            3 => { let i = r.below(n as u64) as usize; d[i] = if r.coin(0.5) { f64::MAX } else { f64::MIN };
+                   let j = r.below(n as u64) as usize; if j != i { d[j] = if r.coin(0.5) { f64::INFINITY } else { f64::NEG_INFINITY }; } }
+            4 => { d = (0..n).map(|_| *r.pick(&[0.0, -0.0])).collect(); }
+            _ => {}
+        }
+        let nt = nontrivial(&d);
+        for f in 6..10 {
+            for form in 0..3 {
+                let rows = if form == 2 { let divs: Vec<usize> = (1..=n).filter(|k| n % k == 0).collect(); *r.pick(&divs) } else { 1 };
+                let res = run_stat(f, form, rows, &d);
+                cs.push(app("CStat", vec![Tm::Raw(SFN[f].into()), Tm::Nat(form as u64), Tm::Nat(rows as u64), fl(&d), outcome_list(&res)]),
+                        &format!("extrema/{}/form{}/kind{}", SFN[f], form, it % 6), nt);
+            }
+        }
+    }
+    // 4. malformed stream: covariance of vectors of different lengths (must panic), short edge lists
+    let nbad = if thorough { 600 } else { 120 };
+    for _ in 0..nbad {
+        let (n, m) = (r.below(12) as usize, r.below(12) as usize);
+        let x = data_class(&mut r, 0, n); let y = data_class(&mut r, 0, m);
+        push_cov(&mut cs, &x, &y, "malformed-stream");
+    }
+    // keep every shard below ~1.5 MB: at most one big case (a vector of >= 4096 values) per shard
+    let per = 400usize;
+    let (big, rest): (Vec<String>, Vec<String>) = cs.cases.drain(..).partition(|c| c.len() > 60_000);
+    let (mid, small): (Vec<String>, Vec<String>) = rest.into_iter().partition(|c| c.len() > 12_000);
+    let (mut big, mut mid) = (big.into_iter(), mid.into_iter());
+    let mut ordered = Vec::with_capacity(small.len() + 256);
+    for (i, c) in small.into_iter().enumerate() {
+        if ordered.len() % per == 0 { if let Some(b) = big.next() { ordered.push(b); } }
+        if i % 50 == 25 { if let Some(b) = mid.next() { ordered.push(b); } }
+        ordered.push(c);
+    }
+    for b in mid { ordered.push(b); }
+    for b in big { while ordered.len() % per != 0 { ordered.push("(CHist [] Panic)".to_string()); } ordered.push(b); }
+    cs.cases = ordered;
+    cs.write(outdir, per,
+             "every length 0..=26 (quick) / 0..=72 (thorough), hence every residue mod 8 of the unrolled sum, x data classes {small integers, gaussian, offset up to 1e8, constant, sorted, reversed, ties with signed zeros, uniform reals, special values (+-0, +-inf, NaN, subnormals, +-MAX)} for the ten scalar statistics (free function; one random Vector method and one random Matrix method per data set), the four covariance algorithms on paired vectors, bin centres of uniform / non-uniform / unsorted / special edges; longer vectors up to 1000 (quick) / 10000 (thorough); an extrema stream (NaN, signed zeros, infinities, +-MAX, ties at every position) x 3 calling forms; a malformed stream (covariance of unequal lengths, fewer than 2 edges); non-trivial = length >= 3 and non-constant data (both vectors for covariance), or a panic; distinct by hash of the case term");
+}
+
+// ---------------------------------------------------------------------------------------------
+// failure-search oracle: the property's statement against the implementation only.
+// Exact sums over dyadic data x = k/1024 in i128.
+struct Ex { n: i128, s1: i128, s2: i128 }
+fn ints_of(d: &[f64]) -> Option<Vec<i128>> {
+    d.iter().map(|x| { let k = x * SCALE; if k.is_finite() && k == k.round() && k.abs() < 1.0e15 { Some(k as i128) } else { None } }).collect()
+}
+fn ex(k: &[i128]) -> Ex { Ex { n: k.len() as i128, s1: k.iter().sum(), s2: k.iter().map(|a| a * a).sum() } }
+fn ratio(p: i128, q: i128) -> f64 { p as f64 / q as f64 }
+const S2: i128 = 1024 * 1024;
+
+/// error a numerically stable algorithm may commit on a second central moment of scale `scale` when the
+/// mean/spread ratio is `kappa`: c.(n + 2).eps.(1 + kappa).scale (Chan-Golub-LeVeque bound for Welford / two-pass)
+fn tol(n: usize, kappa: f64, scale: f64) -> f64 { 16.0 * (n as f64 + 2.0) * f64::EPSILON * (1.0 + kappa) * scale + 1.0e-300 }
+
+fn finding(out: &mut Vec<Finding>, class: &str, what: String, input: String) {
+    if out.iter().filter(|f| f.class == class).count() < 3 { out.push(Finding { class: class.into(), what, input }); }
+}
+
+pub fn oracle(tier: &str, seed: u64) -> (u64, Vec<Finding>) {
+    let mut r = Rng::new(seed ^ 0xC08);
+    let mut out = vec![]; let mut tried = 0u64;
+    let iters = if tier == "thorough" { 12000 } else { 2500 };
+    for it in 0..iters {
+        let n = if it % 50 == 49 { 1 + r.below(10000) as usize } else if it % 5 == 0 { 1 + r.below(200) as usize } else { 1 + r.below(24) as usize };
+        let class = r.below(7);
+        let x = data_class(&mut r, class, n);
+        let cy = if r.coin(0.5) { class } else { r.below(7) };
+        let y = data_class(&mut r, cy, n);
+        let (kx, ky) = (ints_of(&x).unwrap(), ints_of(&y).unwrap());
+        let (ex_x, ex_y) = (ex(&kx), ex(&ky));
+        let nn = n as i128;
+        let sxy: i128 = kx.iter().zip(&ky).map(|(a, b)| a * b).sum();
+        let input = format!("x={}", json_floats(&x));
+        let input2 = format!("x={} y={}", json_floats(&x), json_floats(&y));
+        // exact definitions
+        let mean_x = ratio(ex_x.s1, nn * 1024);
+        let m2x = nn * ex_x.s2 - ex_x.s1 * ex_x.s1;           // n^2 * 1024^2 * var
+        let m2y = nn * ex_y.s2 - ex_y.s1 * ex_y.s1;
+        let cxy = nn * sxy - ex_x.s1 * ex_y.s1;               // n^2 * 1024^2 * cov
+        let var_x = ratio(m2x, nn * nn * S2);
+        let var_y = ratio(m2y, nn * nn * S2);
+        let sd_x = var_x.sqrt(); let sd_y = var_y.sqrt();
+        let maxabs = x.iter().fold(0.0f64, |a, b| a.max(b.abs()));
+        let kappa_x = if sd_x > 0.0 { mean_x.abs() / sd_x } else { 0.0 };
+        let mean_y = ratio(ex_y.s1, nn * 1024);
+        let kappa_y = if sd_y > 0.0 { mean_y.abs() / sd_y } else { 0.0 };
+        // --- means
+        crumb(&input);
+        for (name, got) in [("mean", mean(&x)), ("welford_mean", welford_mean(&x)), ("Vector::mean", Vector::new(x.clone()).mean())] {
+            tried += 1;
+            if !((got - mean_x).abs() <= 4.0 * (n as f64 + 2.0) * f64::EPSILON * maxabs + 1e-300) {
+                finding(&mut out, &format!("{}:wrong", name), format!("{} returned {:e}, the mean is {:e}", name, got, mean_x), input.clone());
+            }
+        }
+        // --- variances
+        // a constant data set has variance exactly 0 in exact arithmetic; a stable algorithm may return rounding noise of
+        // size eps^2.mean^2 at most (the mean itself is known to relative eps)
+        let t = tol(n, kappa_x, var_x) + 4.0 * (n as f64) * (f64::EPSILON * maxabs).powi(2);
+        tried += 2;
+        let got = var(&x);
+        if !((got - var_x).abs() <= t) { finding(&mut out, "var:wrong", format!("var returned {:e}, definition gives {:e}", got, var_x), input.clone()); }
+        let got = std(&x);
+        if !((got - sd_x).abs() <= t.sqrt().max(t / sd_x.max(1e-300))) { finding(&mut out, "std:wrong", format!("std returned {:e}, definition gives {:e}", got, sd_x), input.clone()); }
+        if n >= 2 {
+            let svar = ratio(m2x, nn * (nn - 1) * S2);
+            tried += 3;
+            let got = sample_var(&x);
+            if !((got - svar).abs() <= 2.0 * t) { finding(&mut out, "sample_var:wrong", format!("sample_var returned {:e}, definition gives {:e}", got, svar), input.clone()); }
+            let got = sample_std(&x);
+            if !((got - svar.sqrt()).abs() <= (2.0 * t).sqrt().max(2.0 * t / svar.sqrt().max(1e-300))) { finding(&mut out, "sample_std:wrong", format!("sample_std returned {:e}, definition gives {:e}", got, svar.sqrt()), input.clone()); }
+            let got = Matrix::new(x.clone(), 1, n as i32).sample_var();
+            if !((got - svar).abs() <= 2.0 * t) { finding(&mut out, "Matrix::sample_var:wrong", format!("returned {:e}, definition gives {:e}", got, svar), input.clone()); }
+        }
+        // --- shift invariance (exact integer shift keeps the data dyadic) and power-of-two scaling (exact)
+        if it % 3 == 0 {
+            let c = *r.pick(&[1.0e4, 1.0e6, 1.0e8, -1.0e8, 3.0]);
+            let xs: Vec<f64> = x.iter().map(|v| v + c).collect();
+            if ints_of(&xs).is_some() && xs.iter().zip(&x).all(|(a, b)| a - c == *b) {
+                tried += 1;
+                crumb(&format!("x={}", json_floats(&xs)));
+                let sd = var_x.sqrt();
+                let kap = if sd > 0.0 { (mean_x + c).abs() / sd } else { 0.0 };
+                let t2 = tol(n, kap, var_x) + 4.0 * (n as f64) * (f64::EPSILON * (maxabs + c.abs())).powi(2);
+                let got = var(&xs);
+                if !((got - var_x).abs() <= t2) { finding(&mut out, "var:not-shift-invariant", format!("var(x + {:e}) = {:e} but var(x) = {:e}", c, got, var_x), input.clone()); }
+            }
+            let xs: Vec<f64> = x.iter().map(|v| v * 4.0).collect();
+            tried += 1;
+            crumb(&format!("x={}", json_floats(&xs)));
+            if var(&xs) != 16.0 * var(&x) { finding(&mut out, "var:not-quadratic-in-scale", format!("var(4x) = {:e} but 16 var(x) = {:e}", var(&xs), 16.0 * var(&x)), input.clone()); }
+        }
+        // --- covariances: definition, agreement of the algorithms, cov(x,x) = var
+        let cov = ratio(cxy, nn * nn * S2);
+        let scale = sd_x * sd_y; // >= |cov| (Cauchy-Schwarz), the size of the summed terms
+        let maxy = y.iter().fold(0.0f64, |a, b| a.max(b.abs()));
+        let tc = tol(n, kappa_x.max(kappa_y), scale) + 4.0 * (n as f64) * (f64::EPSILON * maxabs) * (f64::EPSILON * maxy)
+            + 8.0 * (n as f64 + 2.0) * f64::EPSILON * (f64::EPSILON * maxabs * sd_y + f64::EPSILON * maxy * sd_x);
+        tried += 1;
+        crumb(&input2);
+        let got = covariance(&x, &y);
+        if !((got - cov).abs() <= tc) { finding(&mut out, "covariance:wrong", format!("covariance returned {:e}, definition gives {:e}", got, cov), input2.clone()); }
+        if n >= 2 {
+            let scov = ratio(cxy, nn * (nn - 1) * S2);
+            // the shifted one-pass algorithm works on x - x[0]: its stable bound carries the spread of the shifted data
+            let dx0 = x.iter().fold(0.0f64, |a, b| a.max((b - x[0]).abs())); let dy0 = y.iter().fold(0.0f64, |a, b| a.max((b - y[0]).abs()));
+            let t1 = 2.0 * tc + 32.0 * (n as f64 + 2.0) * f64::EPSILON * dx0 * dy0;
+            for (k, name) in [(1usize, "sample_covariance"), (2, "sample_covariance_onepass"), (3, "sample_covariance_online")] {
+                tried += 1;
+                let got = run_cov(k, &x, &y).map(|v| v[0]);
+                match got {
+                    Ok(g) => if !((g - scov).abs() <= if k == 2 { t1 } else { 2.0 * tc }) {
+                        finding(&mut out, &format!("{}:wrong", name), format!("{} returned {:e}, the sample covariance is {:e} (population covariance {:e})", name, g, scov, cov), input2.clone());
+                    },
+                    Err(e) => finding(&mut out, &format!("{}:panics", name), format!("panicked on equal-length vectors: {}", e), input2.clone()),
+                }
+            }
+            tried += 1;
+            crumb(&input);
+            let (a, b) = (sample_covariance(&x, &x), sample_var(&x));
+            if !((a - b).abs() <= 4.0 * t) { finding(&mut out, "sample_covariance:xx-differs-from-sample_var", format!("sample_covariance(x,x) = {:e}, sample_var(x) = {:e}", a, b), input.clone()); }
+        }
+        // --- rejection half: unequal lengths must panic
+        if it % 10 == 0 {
+            let extra = 1 + r.below(3) as usize;
+            let y2 = data_class(&mut r, 0, n + extra);
+            let inp = format!("x={} y={}", json_floats(&x), json_floats(&y2));
+            crumb(&inp);
+            for k in 0..4 { tried += 1; if run_cov(k, &x, &y2).is_ok() { finding(&mut out, &format!("{}:unequal-lengths-accepted", COVK[k]), "returned a value for vectors of different lengths".into(), inp.clone()); } }
+        }
+        // --- extrema and first-occurrence indices (finite data; +0 and -0 compare equal)
+        {
+            let mut lo = 0usize; let mut hi = 0usize;
+            for i in 1..n { if x[i] < x[lo] { lo = i; } if x[i] > x[hi] { hi = i; } }
+            tried += 4;
+            crumb(&input);
+            let (gmin, gmax, gamin, gamax) = (min(&x), max(&x), argmin(&x), argmax(&x));
+            if !(gmin == x[lo]) { finding(&mut out, "min:wrong", format!("min returned {:e}, the minimum is {:e}", gmin, x[lo]), input.clone()); }
+            if !(gmax == x[hi]) { finding(&mut out, "max:wrong", format!("max returned {:e}, the maximum is {:e}", gmax, x[hi]), input.clone()); }
+            if gamin != lo { finding(&mut out, "argmin:not-first-minimum", format!("argmin returned {}, the first index of the minimum is {}", gamin, lo), input.clone()); }
+            if gamax != hi { finding(&mut out, "argmax:not-first-maximum", format!("argmax returned {}, the first index of the maximum is {}", gamax, hi), input.clone()); }
+            if it % 4 == 0 {
+                let divs: Vec<usize> = (1..=n.min(16)).filter(|k| n % k == 0).collect();
+                let rows = *r.pick(&divs); let cols = n / rows;
+                crumb(&format!("{} rows={}", input, rows));
+                let m = Matrix::new(x.clone(), rows as i32, cols as i32);
+                tried += 2;
+                if m.argmin() != (lo / cols, lo % cols) { finding(&mut out, "Matrix::argmin:wrong", format!("returned {:?}, first minimum at {:?}", m.argmin(), (lo / cols, lo % cols)), format!("{} rows={}", input, rows)); }
+                if m.argmax() != (hi / cols, hi % cols) { finding(&mut out, "Matrix::argmax:wrong", format!("returned {:?}, first maximum at {:?}", m.argmax(), (hi / cols, hi % cols)), format!("{} rows={}", input, rows)); }
+            }
+        }
+        // --- histogram bin centres: midpoints of consecutive edges, uniform and non-uniform
+        if it % 2 == 0 {
+            let ne = 2 + r.below(40) as usize;
+            let uniform = r.coin(0.4);
+            let e = edges(&mut r, ne, uniform);
+            tried += 1;
+            let emax = e.iter().fold(0.0f64, |a, b| a.max(b.abs()));
+            crumb(&format!("edges={}", json_floats(&e)));
+            match run_hist(&e) {
+                Ok(c) => {
+                    let bad = c.len() != ne - 1 || (0..ne - 1).any(|i| !((c[i] - (e[i] + e[i + 1]) / 2.0).abs() <= 8.0 * (ne as f64) * f64::EPSILON * emax));
+                    if bad {
+                        let want: Vec<f64> = (0..ne - 1).map(|i| (e[i] + e[i + 1]) / 2.0).collect();
+                        finding(&mut out, if uniform { "hist_bin_centers:wrong-uniform" } else { "hist_bin_centers:wrong-nonuniform" },
+                                format!("returned {:?}, the midpoints are {:?}", c, want), format!("edges={}", json_floats(&e)));
+                    }
+                }
+                Err(er) => finding(&mut out, "hist_bin_centers:panics", format!("panicked on {} edges: {}", ne, er), format!("edges={}", json_floats(&e))),
+            }
+        }
+        if out.len() > 30 { break; }
+    }
+    (tried, out)
+}
